@@ -90,6 +90,14 @@ func (d *Ar) Next() (*ArEntry, error) {
 	if err != nil {
 		return nil, err
 	}
+	if entry.Size > 0 {
+		// Make sure the member's data is all there: its last byte has to be
+		// readable.
+		last := make([]byte, 1)
+		if n, _ := d.in.ReadAt(last, d.offset+int64(count)+entry.Size-1); n != 1 {
+			return nil, fmt.Errorf("Archive is truncated: member %q is shorter than its size %d", entry.Name, entry.Size)
+		}
+	}
 
 	entry.Data = io.NewSectionReader(d.in, d.offset+int64(count), entry.Size)
 	d.offset += int64(count) + entry.Size + (entry.Size % 2)
